@@ -109,7 +109,7 @@ def render(model, *, gravity=(0.0, 0.0, -9.81), dt=0.002, collide=False, limits=
   if custom:
     cust = '  <custom>\n' + '\n'.join(f'    <numeric name="{k}" data="{v}"/>' for k, v in custom.items()) + '\n  </custom>\n'
   return ('<mujoco>\n  <compiler angle="radian" autolimits="false"/>\n'
-          f'  <option gravity="{gravity[0]!r} {gravity[1]!r} {gravity[2]!r}" timestep="{dt!r}" {option_extra}/>\n' + cust +
+          f'  <option gravity="{float(gravity[0])!r} {float(gravity[1])!r} {float(gravity[2])!r}" timestep="{float(dt)!r}" {option_extra}/>\n' + cust +
           top_extra + '  <worldbody>\n' + '\n'.join(body) + '\n  </worldbody>\n' +
           ('  <actuator>\n' + '\n'.join(acts) + '\n  </actuator>\n' if acts else '') + '</mujoco>\n')
 
